@@ -80,7 +80,13 @@ func Bool(b bool) string {
 // Rng is splitmix64: every random choice of a run derives from the one seed.
 type Rng struct{ s uint64 }
 
-func NewRng(seed uint64) *Rng { return &Rng{s: seed*0x9E3779B97F4A7C15 + 0x1234567} }
+func NewRng(seed uint64) *Rng {
+	// mix the seed so that consecutive seeds give unrelated streams
+	r := &Rng{s: seed ^ 0x5DEECE66D}
+	r.s = r.U64() ^ (seed << 32)
+	r.s = r.U64()
+	return r
+}
 
 func (r *Rng) U64() uint64 {
 	r.s += 0x9E3779B97F4A7C15
